@@ -1,9 +1,268 @@
-"""C02 — every shipped angular grid is exact to its advertised degree: exhaustive run-time contracts (rtc/C02.py); data files are data, no proof."""
-from contracts._bounded_only import make_main
+"""C02 — every shipped angular grid is exact to its advertised degree (DESIGN 8, C02).
 
-main = make_main("C02", ["file content is data: decided only by exhaustive enumeration of all 450 (method, degree) pairs against an own Y_lm oracle",
-                         "the oracle (normalised Legendre recursion, float64/longdouble) is validated against mpmath on every run"])
+The property is a statement about *data* (450 files) carried by *code* (the loader and the constructor).  The data part is decided by
+the exhaustive native layer (rtc/C02.py).  The code part is under contract here:
+
+* `AngularGrid._load_precomputed_angular_grid` for a symbolic (degree, size) pair of the method's table: it opens exactly one file, named
+  `<method>_<degree>_<size>.npz` in the package that ships that method's files, never raises for a pair of the table, and returns the
+  file's points unchanged and its weights (one weight per point; a one-entry weight array is the common weight of every point).
+* `AngularGrid.__init__` for a symbolic degree or size request, every method, cache on/off, cache miss and cache hit (the same request
+  made twice): the loader is asked for the least supported pair not below the request, the grid's points are the file's points, its
+  weights the file's weights times 4 pi for the two methods whose files are normalised to one (once, on both routes), `degree`, `size`
+  and `method` report the resolved degree, the number of rows of the file and the lower-cased method.
+
+Data contract (ASSUMED inside the proof, decided by the exhaustive layer for every file): the file of (method, degree) has exactly
+table[degree] rows, every row has unit norm, and sum_i w_i Y_lm(p_i) = sqrt(4 pi) delta_l0 / scale for l <= degree.  Under it the three
+clauses of the property follow from the postconditions above: the size clause and the unit-sphere clause are discharged as obligations,
+the exactness clause by extensionality of finite sums (points and weights agree entry by entry; DESIGN 13.4).
+"""
+from __future__ import annotations
+
+import os
+
+import z3
+
+from pyvc import framework
+from pyvc import interp as I
+from pyvc import terms as T
+
+from contracts.C12 import METHODS, MOD, table_fn, tables
+
+SCALED = ("lebedev", "spherical")          # files normalised to sum w = 1: the constructor multiplies by 4 pi
+
+
+def data_package(method):
+    """The package that ships `<method>_<degree>_<size>.npz` files (read from the tree under verification)."""
+    root = os.path.join(framework.REPO, "src", "grid", "data")
+    hits = []
+    for d in sorted(os.listdir(root)):
+        p = os.path.join(root, d)
+        if os.path.isdir(p) and any(f.startswith(method + "_") and f.endswith(".npz") for f in os.listdir(p)):
+            hits.append("grid.data." + d)
+    return hits
+
+
+def name_parts(name):
+    """Normal form of an f-string value: adjacent literal pieces merged, symbolic fields kept as terms."""
+    if not isinstance(name, I.SymStr):
+        return [str(name)] if isinstance(name, str) else None
+    out = []
+    for p in name.parts:
+        if isinstance(p, (str, int)) and not isinstance(p, bool):
+            if out and isinstance(out[-1], str):
+                out[-1] += str(p)
+            else:
+                out.append(str(p))
+        else:
+            out.append(p)
+    return out
+
+
+def replay_spec(method, table):
+    ks = sorted(table)
+    return {"method": method, "degrees": sorted(set(ks[:4] + [ks[len(ks) // 2], ks[-1] if table[ks[-1]] <= 6000 else ks[len(ks) // 3]])), "shared": True}
+
+
+def loader(chk):
+    eng = chk.eng
+    cls = eng.get_class(MOD, "AngularGrid")
+    fq = f"{MOD}.AngularGrid._load_precomputed_angular_grid"
+    d, s, N, NW, i0 = z3.Ints("deg siz nrows nweights i0")
+    P = z3.Function("file_points", z3.IntSort(), z3.IntSort(), z3.RealSort())
+    Wf = z3.Function("file_weights", z3.IntSort(), z3.RealSort())
+    for method in METHODS:
+        deg_t, _ = tables(eng, method)
+        rep = replay_spec(method, deg_t)
+        pkgs = data_package(method)
+        chk.add(f"loader/{method}/data-package-unique", [], z3.BoolVal(len(pkgs) == 1), kind="lemma", func=fq, meta={"replay": rep})
+        missing = [k for k, v in deg_t.items() if not (pkgs and os.path.exists(os.path.join(framework.REPO, "src", *pkgs[0].split("."), f"{method}_{k}_{v}.npz")))]
+        chk.add(f"loader/{method}/every-table-pair-has-a-file", [], z3.BoolVal(not missing), kind="post", func=fq, meta={"replay": rep, "missing": missing[:5]})
+        loads = []
+
+        pair = z3.Or(*[z3.And(d == k, s == v) for k, v in deg_t.items()])
+        data = z3.And(N >= 1, i0 >= 0, i0 < N)
+        outs = []
+        for variant in ("one-weight-per-point", "one-common-weight"):        # the two layouts of the shipped weight arrays
+            def np_load(eng_, path, *a, variant=variant, **k):
+                loads.append(path)
+                return {"points": I.Arr((N, 3), lambda i, c: P(T.zi(i), T.zi(c)), "real"),
+                        "weights": I.Arr((N if variant == "one-weight-per-point" else 1,), lambda i: Wf(T.zi(i)), "real")}
+
+            def thunk(eng_, method=method, np_load=np_load, variant=variant):
+                loads.clear()
+                eng_.assume(pair)
+                eng_.assume(data)
+                eng_.assume(NW == (N if variant == "one-weight-per-point" else 1))
+                eng_.externals["numpy.load"] = np_load
+                try:
+                    r = eng_.call_method(I.Obj(cls), "_load_precomputed_angular_grid", d, s, method)
+                    return r, list(loads)
+                finally:
+                    eng_.externals.pop("numpy.load", None)
+            outs += [(variant, o) for o in chk.explore(f"loader/{method}/{variant}", thunk, func=fq)]
+        nret = 0
+        for pi, (variant, o) in enumerate(outs):
+            pc = list(o.pc)
+            if o.kind == "raise":
+                chk.add(f"loader/{method}/post/no-raise-for-a-table-pair@{pi}", pc, z3.BoolVal(False), func=fq, meta={"replay": rep, "exc": o.exc})
+                continue
+            if o.kind != "return":
+                continue
+            nret += 1
+            chk.add_from_path(f"loader/{method}@{pi}", o, func=fq, meta={"replay": rep})
+            (pts, wts), ld = o.value
+            chk.add(f"loader/{method}/post/one-file-opened@{pi}", [], z3.BoolVal(len(ld) == 1), func=fq, meta={"replay": rep})
+            if len(ld) == 1:
+                path = ld[0]
+                parts = name_parts(path.data.get("name")) if isinstance(path, I.Opaque) else None
+                if parts is None or any(isinstance(p, str) and "?" in p for p in parts):
+                    chk.undecided.append((f"C02/loader/{method}/post/file-name@{pi}", "the file name is not built by an f-string of plain fields: its value is not within the encoding"))
+                else:
+                    lits = [p for p in parts if isinstance(p, str)]
+                    syms = [p for p in parts if not isinstance(p, str)]
+                    shape_ok = (len(parts) == 5 and parts[0] == f"{method}_" and parts[2] == "_" and parts[4] == ".npz"
+                                and not isinstance(parts[1], str) and not isinstance(parts[3], str) and lits and len(syms) == 2)
+                    goal = z3.And(T.zi(syms[0]) == d, T.zi(syms[1]) == s) if shape_ok else z3.BoolVal(False)
+                    chk.add(f"loader/{method}/post/file-name-is-method_degree_size@{pi}", pc, goal, func=fq, meta={"replay": rep, "parts": [str(p) for p in parts]})
+                    chk.add(f"loader/{method}/post/file-from-the-methods-package@{pi}", [], z3.BoolVal(bool(pkgs) and path.data.get("pkg") == pkgs[0]), func=fq,
+                            meta={"replay": rep, "pkg": str(path.data.get("pkg"))})
+            ok_shapes = isinstance(pts, I.Arr) and isinstance(wts, I.Arr) and pts.ndim == 2 and wts.ndim == 1
+            chk.add(f"loader/{method}/post/array-ranks@{pi}", [], z3.BoolVal(bool(ok_shapes)), func=fq, meta={"replay": rep})
+            if not ok_shapes:
+                continue
+            chk.add(f"loader/{method}/post/shapes@{pi}", pc, z3.And(T.zi(pts.shape[0]) == N, T.zi(pts.shape[1]) == 3, T.zi(wts.shape[0]) == N), func=fq, meta={"replay": rep})
+            chk.add(f"loader/{method}/post/points-are-the-files@{pi}", pc, z3.And(*[T.zr(pts.fn(i0, c)) == P(i0, c) for c in range(3)]), func=fq, meta={"replay": rep})
+            chk.add(f"loader/{method}/post/weights-are-the-files@{pi}", pc, T.zr(wts.fn(i0)) == (Wf(i0) if variant == "one-weight-per-point" else Wf(0)), func=fq,
+                    meta={"replay": rep, "variant": variant})
+        chk.add(f"loader/{method}/post/some-pair-loads", [], z3.BoolVal(nret > 0), func=fq, meta={"replay": rep})
+        chk.add(f"loader/{method}/post/both-weight-layouts-load", [], z3.BoolVal({v for v, o in outs if o.kind == "return"} == {"one-weight-per-point", "one-common-weight"}),
+                func=fq, meta={"replay": rep})
+        chk.canary(f"loader/{method}", [pair, data])
+
+
+def constructor(chk):
+    eng = chk.eng
+    cls = eng.get_class(MOD, "AngularGrid")
+    fq = f"{MOD}.AngularGrid.__init__"
+    lq = f"{MOD}.AngularGrid._load_precomputed_angular_grid"
+    q, i0 = z3.Ints("request i0")
+    P = z3.Function("filedata_points", z3.IntSort(), z3.IntSort(), z3.IntSort(), z3.IntSort(), z3.RealSort())
+    Wf = z3.Function("filedata_weights", z3.IntSort(), z3.IntSort(), z3.IntSort(), z3.RealSort())
+    NR = z3.Function("filedata_rows", z3.IntSort(), z3.IntSort(), z3.IntSort())
+    mids = {m: k for k, m in enumerate(METHODS)}
+    calls = []
+
+    def loader_contract(eng_, f, args, kwargs):
+        b = framework.bound_arguments(eng_, f, [a for a in args if not isinstance(a, (I.ClassRef, I.Obj))], kwargs)
+        calls.append(b)
+        dd, meth = T.zi(b["degree"]), b["method"]
+        mid = mids[meth]
+        n = NR(mid, dd)
+        eng_.assume(n >= 1)
+        return (I.Arr((n, 3), lambda i, c: P(mid, dd, T.zi(i), T.zi(c)), "real"), I.Arr((n,), lambda i: Wf(mid, dd, T.zi(i)), "real"))
+
+    for method in METHODS:
+        deg_t, npt_t = tables(eng, method)
+        rep = replay_spec(method, deg_t)
+        mid = mids[method]
+        scale = (4 * T.PI) if method in SCALED else z3.RealVal(1)
+        spelled = method.upper() if len(method) % 2 else method.capitalize()
+        for mode, table in (("degree", deg_t), ("size", npt_t)):
+            keys = sorted(table)
+            kmax = keys[-1]
+            for cache in (True, False):
+                tag = f"init/{method}/by-{mode}/cache-{'on' if cache else 'off'}"
+
+                def thunk(eng_, mode=mode, cache=cache, kmax=kmax, spelled=spelled):
+                    calls.clear()
+                    eng_.callee_contracts[lq] = loader_contract
+                    try:
+                        eng_.assume(z3.And(q >= 0, q <= kmax))
+                        kw = {"degree": q} if mode == "degree" else {"degree": 7, "size": q}
+                        g1 = eng_.new_object(cls, cache=cache, method=spelled, **kw)
+                        n1 = len(calls)
+                        # the same request again, served from the cache (without caching every construction is a first one)
+                        g2 = eng_.new_object(cls, cache=cache, method=spelled, **kw) if cache else None
+                        return g1, g2, list(calls), n1
+                    finally:
+                        eng_.callee_contracts.pop(lq, None)
+                outs = chk.explore(tag, thunk, func=fq)
+                nret = 0
+                for pi, o in enumerate(outs):
+                    pc = list(o.pc)
+                    if o.kind == "raise":
+                        chk.add(f"{tag}/post/in-range-request-constructs@{pi}", pc, z3.BoolVal(False), func=fq, meta={"replay": rep, "exc": o.exc})
+                        continue
+                    if o.kind != "return":
+                        continue
+                    nret += 1
+                    chk.add_from_path(f"{tag}@{pi}", o, func=fq, meta={"replay": rep})
+                    g1, g2, cl, n1 = o.value
+                    # the resolved pair: least supported key not below the request (degree mode: key = degree; size mode: key = size)
+                    D = T.zi(g1.fields["_degree"])
+                    key = D if mode == "degree" else table_fn(D, deg_t)
+                    least = z3.And(z3.Or(*[key == k for k in keys]), key >= q, *[z3.Implies(k >= q, key <= k) for k in keys])
+                    if mode == "size":
+                        least = z3.And(least, z3.Or(*[D == k for k in deg_t]))
+                    chk.add(f"{tag}/post/degree-is-least-supported-not-below@{pi}", pc, least, func=fq, meta={"replay": rep})
+                    want_calls = 1
+                    chk.add(f"{tag}/callee-pre/loader-calls@{pi}", [], z3.BoolVal(n1 == 1 and len(cl) == want_calls), kind="callee-pre", func=fq, meta={"replay": rep, "calls": len(cl)})
+                    for ci, b in enumerate(cl):
+                        chk.add(f"{tag}/callee-pre/loader-asked-for-the-resolved-pair@{pi}.{ci}", pc,
+                                z3.And(T.zi(b["degree"]) == D, T.zi(b["size"]) == table_fn(D, deg_t), z3.BoolVal(b["method"] == method)),
+                                kind="callee-pre", func=fq, meta={"replay": rep})
+                    hyp = pc + [i0 >= 0, i0 < NR(mid, D)]
+                    for gi, g in ((("first", g1), ("again", g2)) if cache else (("first", g1),)):
+                        pts, wts = g.fields["_points"], g.fields["_weights"]
+                        chk.add(f"{tag}/post/{gi}/points-are-the-files@{pi}", hyp, z3.And(*[T.zr(pts.fn(i0, c)) == P(mid, D, i0, c) for c in range(3)]), func=fq, meta={"replay": rep})
+                        chk.add(f"{tag}/post/{gi}/weights-are-the-files-times-scale@{pi}", hyp, T.zr(wts.fn(i0)) == Wf(mid, D, i0) * scale, func=fq, meta={"replay": rep})
+                        chk.add(f"{tag}/post/{gi}/rows-degree-method@{pi}", pc,
+                                z3.And(T.zi(pts.shape[0]) == NR(mid, D), T.zi(wts.shape[0]) == NR(mid, D), T.zi(pts.shape[1]) == 3,
+                                       T.zi(g.fields["_degree"]) == D, z3.BoolVal(g.fields.get("_method") == method)), func=fq, meta={"replay": rep})
+                        # the clauses of the property, under the data contract of the file (assumed here, decided exhaustively by the native layer)
+                        data_rows = NR(mid, D) == table_fn(D, deg_t)
+                        data_unit = sum(P(mid, D, i0, c) * P(mid, D, i0, c) for c in range(3)) == 1
+                        chk.add(f"{tag}/post/{gi}/size-is-the-advertised-size@{pi}", pc + [data_rows], T.zi(pts.shape[0]) == table_fn(D, deg_t), func=fq,
+                                meta={"replay": rep}, assumptions=["data contract: the file has table[degree] rows"])
+                        chk.add(f"{tag}/post/{gi}/points-on-the-unit-sphere@{pi}", hyp + [data_unit],
+                                sum(T.zr(pts.fn(i0, c)) * T.zr(pts.fn(i0, c)) for c in range(3)) == 1, func=fq,
+                                meta={"replay": rep}, assumptions=["data contract: every row of the file has unit norm"])
+                chk.add(f"{tag}/post/some-request-constructs", [], z3.BoolVal(nret > 0), func=fq, meta={"replay": rep})
+                chk.canary(tag, [q >= 0, q <= kmax])
+        # requests above the largest supported key are refused
+        for mode, kmax in (("degree", max(deg_t)), ("size", max(npt_t))):
+            def t_hi(eng_, mode=mode, kmax=kmax):
+                eng_.callee_contracts[lq] = loader_contract
+                try:
+                    eng_.assume(q > kmax)
+                    return eng_.new_object(cls, method=method, **({"degree": q} if mode == "degree" else {"degree": None, "size": q}))
+                finally:
+                    eng_.callee_contracts.pop(lq, None)
+            outs = chk.explore(f"init/{method}/by-{mode}/above-max", t_hi, func=fq)
+            chk.add(f"init/{method}/by-{mode}/post/above-max-refused", [], z3.BoolVal(bool(outs) and all(o.kind == "raise" and o.exc == "ValueError" for o in outs)), func=fq,
+                    meta={"replay": rep})
 
 
 def build(chk):
-    return None
+    only = os.environ.get("VERIF_C02_METHODS")        # developer switch: restrict the methods (the lock then reports the others as lost)
+    if only:
+        for m in [m for m in METHODS if m not in only.split(",")]:
+            METHODS.pop(m)
+    loader(chk)
+    constructor(chk)
+
+
+def main(tier="quick", seed=0, bounded=True, proof=True):
+    chk = framework.Check("C02", tier, seed, level="proof")
+    chk.trusted += [
+        "DATA CONTRACT (assumed in the proof, decided for every one of the 450 files by the exhaustive native layer): the file of (method, degree) has table[degree] rows "
+        "of unit norm and integrates every real harmonic of degree <= degree to sqrt(4 pi) delta_l0 after the method's scaling",
+        "exactness of the constructed grid follows from entry-wise equality with the file by extensionality of finite sums (not a separate obligation)",
+        "np.load returns the named file's arrays 'points' (N,3) and 'weights' (N,) or (1,) (assumed external contract); importlib.resources.files(pkg).joinpath(name) names "
+        "the file `name` of package `pkg`",
+        "module-level tables are evaluated by the engine from the real module source",
+        "the oracle of the native layer (normalised Legendre recursion, float64/longdouble) is validated against mpmath on every run",
+    ]
+    if proof:
+        build(chk)
+    return chk.finish(bounded_args=[] if bounded else None)
